@@ -6,6 +6,7 @@ CONSTANTS
   Head0 <- HeadP2
   MaxCrash = 1
   MaxTries = 3
+  AcceptRepair = TRUE
   LockedMarker = FALSE
   Known <- KnownAll
 ACTION_CONSTRAINT Emit
